@@ -49,7 +49,7 @@ def classify(case, msg):
 def run(ctx):
     ctx.make_overlay(need_kernel=True)
     ctx.regen_all(needed=("py2v_reject.py",))  # Gen/RejectSites.v: the four rejection sites as the source has them now
-    ok = ctx.build_models(MODELS + ["Model/Iterative.vo"])
+    ok = ctx.build_models(MODELS + ["Model/Iterative.vo", "Gen/ConstsGen.vo"])
     if ok:
         ctx.build_props()
         ctx.build_props("Props/C02g.vo")  # the generated rejection sites (rule, truncation, index spaces, columns) are the model
@@ -95,7 +95,7 @@ def replay(ctx, path):
     if case is None:
         return run(ctx)
     ctx.regen_all()
-    ctx.build_models(MODELS + ["Model/Iterative.vo"])
+    ctx.build_models(MODELS + ["Model/Iterative.vo", "Gen/ConstsGen.vo"])
     if case.get("family") == "iterative":
         import c14
 
